@@ -756,6 +756,7 @@ def s4_list_int(ctx):
     outs = I.run(fi, env={ip: X}, facts=facts)
     ctx.analysed['paths'] += len(outs)
     ip_probs = {}
+    ip_und = {}
     n = 0
     for kind, val, st in outs:
         if kind != 'return':
@@ -779,18 +780,32 @@ def s4_list_int(ctx):
         I.nf = NF(pb)
         eff = I.nf(X) + (Lin.atom(('N',)) if rel == '<' else Lin())
         okk = is_t(k) and k[1] == 'index' and k[3] == C(0) and is_t(k[2]) and k[2][1] == 'call' and k[2][2] == '_find_chunks' and k[2][4] == bounds
+        form = 'find_chunks' if okk else None
         if okk:
             arr = I.deref(k[2][5], st)
             okk = is_t(arr) and arr[1] == 'list' and len(arr) == 3 and equal(I.nf(arr[2]), eff)
-        if not okk:
-            ip_probs.setdefault('the part of an integer index is %s, expected _find_chunks(bounds, [x])[0] with x = %s' % (show(k)[:70], eff), 1)
+        elif is_t(k) and k[1] == 'Sub' and k[3] == C(1) and is_t(k[2]) and k[2][1] == 'call' and len(k[2]) >= 6 and k[2][4] == bounds:
+            # the scalar form of the part-location rule: (number of bounds <= x) - 1 by a right bisection
+            fn_ = k[2][2].split('.')[-1]
+            kws_ = {a_[2]: a_[3] for a_ in k[2][6:] if is_t(a_) and a_[1] == 'kw'}
+            if fn_ == 'bisect_right' or fn_ == 'bisect' or (fn_ == 'searchsorted' and kws_.get('side') == C('right')):
+                form = 'bisect'
+                okk = equal(I.nf(k[2][5]), eff)
+            elif fn_ == 'bisect_left' or (fn_ == 'searchsorted' and kws_.get('side', C('left')) == C('left')):
+                form = 'left'
+        if form == 'left':
+            ip_probs.setdefault('the part of an integer index is located by a LEFT bisection (%s): a sample equal to a bound is put in the part that ends there' % show(k)[:60], 1)
+        elif form is None:
+            ip_und.setdefault('the part of an integer index is %s: not a recognised form of the part-location rule' % show(k)[:70], 1)
+            continue
+        elif not okk:
+            ip_probs.setdefault('the part of an integer index is %s, expected the part of x = %s' % (show(k)[:70], eff), 1)
         loc = dict(pb)
         loc[T('index', bounds, k)] = Lin.atom(('bk',))
         if not equal(NF(loc)(off), eff - Lin.atom(('bk',))):
             ip_probs.setdefault('the offset inside the part is %s, expected x - bounds[part] with x = %s' % (NF(loc)(off), eff), 1)
     # an integer in [-n, n) is a valid index: a path that RAISES must be infeasible for every such integer. The path facts (comparisons of terms over x and
     # n = bounds[-1]) are evaluated on a small grid of valid (x, n); a fact that cannot be evaluated leaves the path undecided.
-    ip_und = {}
     _bnd = [[0, 1], None]
 
     def _val(t_, x_, n_):
@@ -812,6 +827,9 @@ def s4_list_int(ctx):
                 xv_ = _val(arr_[2], x_, n_)
                 return sum(1 for b_ in _bnd[0] if b_ <= xv_) - 1
             raise KeyError('_find_chunks argument')
+        if is_t(t_) and t_[1] == 'call' and t_[2].split('.')[-1] in ('bisect_right', 'bisect') and len(t_) == 6 and t_[4] == bounds:
+            xv_ = _val(t_[5], x_, n_)
+            return sum(1 for b_ in _bnd[0] if b_ <= xv_)
         if is_t(t_) and t_[1] in ('Add', 'Sub', 'Mult', 'Mod') and len(t_) == 4:
             a_, b_ = _val(t_[2], x_, n_), _val(t_[3], x_, n_)
             return {'Add': lambda: a_ + b_, 'Sub': lambda: a_ - b_, 'Mult': lambda: a_ * b_, 'Mod': lambda: a_ % b_}[t_[1]]()
